@@ -1157,6 +1157,69 @@ func crcPartner(a []byte, poly uint64, bits int, off int) []byte {
 // same prefix / suffix, same CRC-64 (ECMA, ISO), same CRC-32 (IEEE, Castagnoli), same Adler-32, same
 // multiset of bytes, and the same buffer re-used with new contents. The second input's result, taken
 // right after the first one's, must be what it is after unrelated traffic.
+// bufferReuse: the caller keeps ONE buffer (same backing array, same length) and refills it between calls,
+// as a sampling loop does; the result must be that of the buffer's current contents, not of what it held
+// at an earlier call (anything remembered per slice identity instead of per content shows here). Sequential
+// on purpose: an intervening call on another slice would evict a one-entry memo.
+func bufferReuse(c *ev.Ctx, seed uint64) {
+	var n, bad int64
+	for _, nbits := range []int{1000, 20000, 80000} {
+		contents := [][]uint8{
+			gen.Seq{Fam: "slight", N: nbits, Seed: gen.Mix(seed, 1901, uint64(nbits))}.Bits(),
+			gen.Seq{Fam: "uniform", N: nbits, Seed: gen.Mix(seed, 1902, uint64(nbits))}.Bits(),
+			gen.Seq{Fam: "markov", N: nbits, Seed: gen.Mix(seed, 1903, uint64(nbits))}.Bits(),
+		}
+		oneFlip := append([]uint8(nil), contents[2]...)
+		oneFlip[nbits/2] ^= 1
+		contents = append(contents, oneFlip)
+		for _, sp := range allSpecs(nbits, false) {
+			if nbits > 20000 && (sp.T == "lc" || sp.T == "maurer") {
+				continue
+			}
+			// fresh-slice results first (each on its own allocation)
+			fresh := make([][]float64, len(contents))
+			for k, bits := range contents {
+				bools := gen.Bools(bits)
+				var by []byte
+				if sp.needsBytes() {
+					by = gen.Pack(bits)
+				}
+				fresh[k] = libCall(sp, bools, by)
+			}
+			// now one buffer refilled in place
+			bools := make([]bool, nbits)
+			by := make([]byte, nbits/8)
+			for k, bits := range contents {
+				for i, b := range bits {
+					bools[i] = b == 1
+				}
+				if sp.needsBytes() {
+					copy(by, gen.Pack(bits))
+				}
+				var got []float64
+				if p, m := guard(func() { got = libCall(sp, bools, by) }); p {
+					c.Violation(fmt.Sprintf("buffer-reuse:%s:n=%d:panic", sp, nbits), m, "purity", nil)
+					bad++
+					continue
+				}
+				n++
+				same := len(got) == len(fresh[k])
+				for i := range got {
+					if same && diff(got[i], fresh[k][i]) != 0 {
+						same = false
+					}
+				}
+				if !same && bad < 25 {
+					bad++
+					c.Violation(fmt.Sprintf("buffer-reuse:%s:n=%d:fill=%d", sp, nbits, k), fmt.Sprintf("%s on a caller-owned buffer after refill #%d returns %v; the same contents in a fresh slice give %v (the previous fill gave %v)", sp, k, got, fresh[k], fresh[(k+len(fresh)-1)%len(fresh)]), "purity", nil)
+				}
+			}
+			c.Eval(ev.HashStr(fmt.Sprintf("bufreuse|%s|%d", sp, nbits)), true)
+		}
+	}
+	c.Count("calls_on_a_refilled_caller_buffer", n)
+}
+
 func weakKeyPairs(c *ev.Ctx, seed uint64) {
 	type bcall struct {
 		name string
@@ -1443,6 +1506,7 @@ func runC18(c *ev.Ctx) {
 		c.Count("soak_repeated_calls", soak)
 	}
 	weakKeyPairs(c, seed)
+	bufferReuse(c, seed)
 	windowViews(c, seed)
 	// (c) concurrency in this (plain) binary
 	sizes := []int{2500, 12500}
